@@ -7,7 +7,7 @@ from ..spec import Tree
 
 PROP = 'C08'
 LEVEL = 'fault_enumeration'
-BUDGET = {'quick': 1600, 'thorough': 16000}
+BUDGET = {'quick': 4800, 'thorough': 32000}
 RULE = ('cases = well-formed chart with 0-2 preconditions/postconditions/invariants on ~50% of '
         'its states and transitions (probe conditions logging their evaluation and __old__.v) + '
         'history of 6-15 ops. Part 1: the executed-code log of every step must equal the sequence '
